@@ -284,7 +284,8 @@ def r09_2(ctx, rr):
                     ev["enc_th"] += 1
             if n.get("k") == "Index" and id(n) in in_el and range_of(F, n["i"]) is not None:
                 lo, hi, incl = range_of(F, n["i"])
-                if lo is not None and hi is None and is_lcp(Wk.T.term(lo)):
+                if lo is not None and hi is None and is_lcp(Wk.T.term(lo)) and "[u8]" in F.tya(n["e"]) + F.ty(n["e"]):
+                    # a byte slice: lcp is a byte count and may fall inside a multi-byte character of a str
                     ev["suffix_el"] = True
         W.on_node = on_node
         W.run()
@@ -294,7 +295,7 @@ def r09_2(ctx, rr):
         want = [x for x in ev["enc_el"] if x[0] == "op" and x[1] == "-" and x[2] == ("call", "len", (("field", slf, "last_str"),)) and is_lcp(x[3])]
         rr.check(len(ev["enc_el"]) == 1 and len(want) == 1 and ev["enc_th"] == 0, "RearCodedListBuilder::push:rear-length", "inside a block the rear length `last_str.len() - lcp` must be encoded before the suffix; the first string of a block is stored verbatim", F.loc(blk))
         rr.instances += 1
-        rr.check(ev["suffix_el"], "RearCodedListBuilder::push:suffix", "inside a block only the suffix after the common prefix is stored", F.loc(blk))
+        rr.check(ev["suffix_el"], "RearCodedListBuilder::push:suffix", "inside a block only the suffix after the common prefix is stored, sliced from the *bytes* of the string (the common prefix is a byte count and may end inside a multi-byte character)", F.loc(blk))
     s = show(F, pb.body)
     rr.instances += 1
     rr.check(re.search(r"self\.data\.extend_from_slice\(to_encode\);\s*self\.data\.push\(0\);", s) is not None, "RearCodedListBuilder::push:nul", "every stored (suffix of a) string must be followed by a NUL terminator", pb.span)
@@ -331,6 +332,15 @@ def r09_2(ctx, rr):
     rr.instances += 1
     ok = env.get("block") == mk_op("/", gi, ("field", gs, "k")) and env.get("offset") == mk_op("%", gi, ("field", gs, "k"))
     rr.check(ok, "get_in_place:block/offset", "get_in_place must locate the block as index / k and replay index % k strings", gb.span)
+    # the output buffer is emptied before the block head is copied into it
+    evs = []
+    for n in walk(gb.body):
+        if n.get("k") == "MethodCall" and n["name"] == "clear" and n["recv"].get("k") == "Path" and n["recv"].get("id") == gb.params[2]["id"]:
+            evs.append(("clear", F.line(n)))
+        if cname(F, n) == "rear_coded_list::strcpy":
+            evs.append(("strcpy", F.line(n)))
+    rr.instances += 1
+    rr.check(bool(evs) and evs[0][0] == "clear", "get_in_place:clears-buffer", "get_in_place must clear the caller's buffer before decoding into it (the method exists to reuse one buffer across calls)", gb.span)
     rngs = [range_of(F, n) for n in walk(gb.body) if n.get("k") == "Struct"]
     rr.instances += 1
     rr.check(any(r and r[0] is not None and r[1] is not None and show(F, r[0]) == "0" and show(F, r[1]) == "offset" for r in rngs), "get_in_place:replay-count", "get_in_place must replay exactly `offset` rear-coded strings after the block head", gb.span)
